@@ -6,6 +6,7 @@ package ua
 
 import (
 	"fmt"
+	"io"
 	"math"
 	"reflect"
 	"time"
@@ -129,6 +130,12 @@ func decodeSlice(b []byte, val reflect.Value, name string) (int, error) {
 
 	if n > math.MaxInt32 {
 		return buf.Pos(), errors.Errorf("array too large: %d > %d", n, math.MaxInt32)
+	}
+
+	// every element takes at least one byte: do not allocate
+	// more elements than the buffer can hold.
+	if int(n) > buf.Len() {
+		return buf.Pos(), io.ErrUnexpectedEOF
 	}
 
 	// elemType is the type of the slice elements
